@@ -14,7 +14,8 @@ def classify(prop, sig):
     if prop in ("C07", "C16", "C08"):
         outs = [o for v in sig.get("outcomes", {}).values() for o in v]
         api = [x[-1] for x in sig.get("api", [])]
-        if "StoreObjectForPidAlreadyInProgress" in outs and "||d" in sig.get("scenario", "") and \
+        import re
+        if "StoreObjectForPidAlreadyInProgress" in outs and re.search(r"(^|[|;])d\d", sig.get("scenario", "")) and \
                 sig.get("locked") == [[], []] and not sig.get("residue"):
             return prop + "-R3"
         if "RefsFileExistsButCidObjMissing" in api and all(o in ("ok", "mismatch", "PidRefsDoesNotExist") for o in outs) \
